@@ -125,6 +125,16 @@ CLAIMS.update({
         "the same moment / delivered at the tick; duplicate components and missing outstanding shares must be rejected at setup.",
    note=S_NOTE),
 })
+CLAIMS["C18"] = dict(level="proof", suites=["C"], design="5/C18",
+   technique="Coq proofs on component models (json_extends resolution + termination by pigeonhole, group expansion, supports, legacy keys, class lookup) + differential correspondence + monitor; PrimFloat witness for the known float finding",
+   text="Theorems C18_* (props/C18.v): json_extends returns, for every inheritance graph, the entry's own keys and for every other non-excluded key the nearest ancestor's value, never loops "
+        "(fuel = entries + 2 is never exhausted; missing parents and cycles are errors); a count / inclusive range creates exactly that many entities with consecutive ids and distinct names "
+        "(lengths 1 and 2 included); accessible markets are the union of the listed groups; uniform values lie in [min, max) and exponential ones are positive in exact arithmetic; legacy keys are "
+        "equivalent to their replacements; a class name resolves iff exactly one candidate exists. The real json_extends (several resolutions on one settings dict, which must stay unmodified), "
+        "SequentialRunner._setup on every range of length 1-3, JsonRandom with a stub generator, Session.setup and find_class are compared with the model every run. "
+        "K1 (uniform can return max in binary64) is a known finding with a bit-exact PrimFloat witness.",
+   note=COMMON_NOTE + "Names and opaque values are interned as integers; key order of the merged dict is not compared (the property does not speak about it). "
+        "Axioms under the K1 witness: Coq's primitive float operations only.")
 CLAIMS["C06"]["suites"] = ["M", "S"]
 CLAIMS["C04"]["suites"] = ["M", "S"]
 
